@@ -1,11 +1,19 @@
 """Run the cases of a check on several worker processes. Case i draws all its randomness
 from rng_for(prop, i), so results do not depend on the number of workers."""
 import multiprocessing as mp
-import os, sys, traceback
+import os, sys, traceback, signal
 from . import common
 from .common import Report, Driver
 
 _state = {}
+
+
+class CaseTimeout(BaseException):
+    pass
+
+
+def _case_alarm(signum, frame):
+    raise CaseTimeout()
 
 
 def _worker(args):
@@ -18,14 +26,21 @@ def _worker(args):
     try:
         for i in indices:
             rnd = common.rng_for(prop, 'case-%d' % i)
+            signal.signal(signal.SIGALRM, _case_alarm)
+            signal.setitimer(signal.ITIMER_REAL, 240)
             try:
                 case_fn(rep, drv, rnd, i, tier)
+            except CaseTimeout:
+                # a whole case that does not come back within 4 minutes: skipped, and visible in the evidence
+                rep.count('case-time-budget-exceeded-skipped')
             except RecursionError:
                 # unbounded recursion inside the harness itself comes from cyclic terms
                 rep.count('harness-recursion-skipped')
             except Exception as e:
                 tb = traceback.format_exc()
                 raise RuntimeError('case %d of %s failed in the harness: %s\n%s' % (i, prop, e, tb[-1500:])) from None
+            finally:
+                signal.setitimer(signal.ITIMER_REAL, 0)
             if len(rep.violations) >= stop_after:
                 break
     finally:
